@@ -1,50 +1,210 @@
-"""C06-C08 - common/db: KV backends vs ordered-map model, paged listing, layered LocalDB. Family KVDB."""
+"""C06-C08 - chain33 common/db: key-value backends against an ordered-map model (C06), paged listing through
+ListHelper / merged iterators / LocalDB (C07), layered LocalDB transaction semantics (C08). Family KVDB.
+
+Specs (spec/KVDB): ByteKeys (byte-string order, prefix upper bound), KVDB (C06), MergedView + Listing (C07),
+LocalDB (C08), each with _MC / _Gen / _All / _Trace companions. Driver: harness/drv/kvdb."""
 import copy
 
 FAMILY = 'KVDB'
 DRIVER = 'kvdb'
+HOOK_COMMITS = []          # no hook needed (DESIGN 5)
+FIX_COMMITS = ['d96c6ff']  # fix: badger iterator upper bound was inclusive (found by C06)
+
+_TECH = ('TLA+ reference model with keys as byte sequences over {0,1,255} (prefix relation and prefix upper bound inside '
+         'the model) checked by TLC; TLC-generated behaviours replayed into the real common/db code under an '
+         'order-preserving hostile concretisation; seeded recordings of the real code validated by a TLA+ trace specification')
+
 PROPS = {
-    'C06': dict(text='wip', note='wip'),
-    'C07': dict(text='wip', note='wip'),
-    'C08': dict(text='wip', note='wip'),
+    'C06': dict(
+        text='TLC checks the ordered-map model KVDB exhaustively on small constants (walk visits exactly the in-range keys in '
+             'order, prefix mode = [start, UB(start)), seek landing, batch = last-op-wins, read-your-write; byte-order lemmas '
+             'as ASSUMEs). TLC-simulated histories (Set/Delete/Batch/Get, iterators in prefix / [start,end) / open-ended mode, '
+             'forward and reverse, Rewind/Seek/Next) are replayed into GoMemDB, GoLevelDB and GoBadgerDB, comparing Get of every '
+             'key after each write and (Valid, Key, Value) after each iterator call; seeded recordings over 84 keys are '
+             'validated by KVDB_Trace for each backend.',
+        note='Not compared: error value of Delete/batch Write for an absent key, Iterator.Error(), boolean results of '
+             'Rewind/Seek/Next, iterator state before the first Rewind/Seek, Next on an invalid iterator, writes while an '
+             'iterator is open, Seek targets outside the iterator range (reply open), the empty key. Badger runs with a '
+             'concretisation without 0xff/0xfe bytes. TLC bounds: 3-4 stored keys, 13 bounds, values {0,1}, batches <= 2 '
+             '(exhaustive); 12 keys, batches <= 3, depth 30 (simulation).',
+        technique=_TECH),
+    'C07': dict(
+        text='TLC checks on every content of 2-3 layers x 3-4 keys (live / deleted marker / absent per layer), every prefix, '
+             'direction and page size that client-side paging (continue after the last returned key until an empty page) '
+             'returns exactly the live entries of the merged view once, in order, and that PrefixCount is their number. '
+             'Generated and exhaustively exported paginations are replayed into ListHelper.List/PrefixCount over memdb, LevelDB, '
+             'Badger, NewKVDB, NewMergedIteratorDB over 2-3 databases and LocalDB.List/PrefixCount (tx/cache/base), every request '
+             'issued in all three result encodings; recorded paginations over 84 keys are validated by Listing_Trace.',
+        note='Not compared: ListSeek mode, count <= 0, continuation keys that the previous page did not return, listing while the '
+             'content changes. Values are decoded back to (key, layer) by the harness to continue value-only listings. '
+             'The exhaustive export covers 2 layers x 3 keys (29160 paginations); larger shapes are sampled.',
+        technique=_TECH),
+    'C08': dict(
+        text='TLC checks the layered model (base / committed overlay / open transaction) exhaustively on 3 keys: list and count '
+             'agree with point reads in every state, Rollback discards exactly the transaction writes, Commit keeps them, Begin '
+             'is neutral, a write is visible and isolated. Generated histories (Begin/Set/Get/List/PrefixCount/Commit/Rollback '
+             'over a pre-populated base, empty values as delete markers) and all 6-call histories over 2 keys are replayed into '
+             'db.NewLocalDB on memdb / LevelDB, comparing every Get, both complete listings and the count after every call; '
+             'the same histories run through the blockchain module\'s EventLocal* handlers on a real node; recordings over 84 '
+             'keys are validated by LocalDB_Trace.',
+        note='Not generated: Begin inside an open transaction, Commit/Rollback without one, read-only mode, concurrent use. '
+             'The blockchain handlers offer no transaction-scoped PrefixCount, so that call is only checked on db.NewLocalDB.',
+        technique=_TECH),
 }
-T = 3600  # generous: the machine is shared
+T = 3600  # generous timeouts: the machine is shared (AGENT_BRIEF load notice)
 
 
+def _cov(ctx, res):
+    z = res.get('zero_actions') or []
+    if z:
+        raise vlib.Broken('vacuous model-checking run, actions never taken: %s' % z[:5])
+
+
+# ---------------------------------------------------------------------------------------------------- C06
 def run_c06(ctx):
     q = ctx.tier == 'quick'
-    ctx.tlc_mc('KVDB_MC', 'KVDB_MCq.cfg' if q else 'KVDB_MC.cfg', workers=4, timeout=3 * T)
+    ctx.rule = ('behaviours = TLC simulation of KVDB (arguments from an LCG in the state, seeded by -seed): depth-30 histories of '
+                'writes, batches, reads and iterator sessions over 12 keys / 13 bounds, replayed on each backend under a seeded '
+                'byte concretisation; non-trivial = an iterator walk visiting >= 2 keys under a non-default bound (non-empty '
+                'start or explicit end), or a batch containing a delete; distinct by abstract action sequence. Recorded traces: '
+                'same criterion.')
+    ctx.assumptions += ['goleveldb / badger libraries trusted below the chain33 wrappers', 'single iterator, no writes while it is open',
+                        'TLC bounds: see level_note']
+    r = ctx.tlc_mc('KVDB_MC', 'KVDB_MCq.cfg' if q else 'KVDB_MC.cfg', workers=4, timeout=3 * T, coverage=not q)
+    if not q:
+        _cov(ctx, r)
     b = vlib.build(DRIVER)
-    bs = ctx.tlc_sim('KVDB_Gen', 'KVDB_Gen.cfg', num=300 if q else 3000, depth=30, timeout=3 * T)
+    n = 300 if q else 2500
+    bs = ctx.tlc_sim('KVDB_Gen', 'KVDB_Gen.cfg', num=n, depth=30, timeout=3 * T)
     for db in ('mem', 'leveldb', 'badger'):
         ctx.replay(b, bs, opts=dict(spec='kvdb', db=db), par=4, count=(db == 'mem'), timeout=T)
+    if not q:
+        for sd in (1, 2):
+            bs2 = ctx.tlc_sim('KVDB_Gen', 'KVDB_Gen.cfg', num=n, depth=30, seed=ctx.seed * 100 + sd, timeout=3 * T)
+            for db in ('mem', 'leveldb', 'badger'):
+                ctx.replay(b, bs2, opts=dict(spec='kvdb', db=db, salt=sd), par=4, count=(db == 'mem'), timeout=T)
+    for db in ('mem', 'leveldb', 'badger'):
+        ctx.validate_recording(b, 'KVDB_Trace', 'KVDB_Trace.cfg', recorder='kvdb',
+                               opts=dict(db=db, n=6 if q else 40, depth=80), selftest=(db == 'leveldb' and not q), timeout=3 * T)
+    _replay_selftest(ctx, b, bs, dict(spec='kvdb', db='mem'))
 
 
+# ---------------------------------------------------------------------------------------------------- C07
 def run_c07(ctx):
     q = ctx.tier == 'quick'
-    ctx.tlc_mc('Listing_MC', 'Listing_MCq.cfg', workers=4, timeout=3 * T)
+    ctx.rule = ('behaviours = (a) TLC simulation of Listing: random writes into 1-3 layers (one in four a deleted marker) then '
+                'complete paginations (first request with empty key, then key = last returned key until an empty page) and '
+                'PrefixCount, (b) thorough: exhaustive export of every content x prefix x direction x page size of the 2-layer / '
+                '3-key configuration; every List request is issued in the three result encodings; non-trivial = a pagination of '
+                '>= 2 non-empty pages over a content with a deleted marker or a key equal to the prefix / to its upper bound; '
+                'distinct by abstract action sequence.')
+    ctx.assumptions += ['content does not change during a pagination', 'TLC bounds: see level_note']
+    r = ctx.tlc_mc('Listing_MC', 'Listing_MCq.cfg', workers=4, timeout=3 * T, coverage=not q)
+    if not q:
+        _cov(ctx, r)
+        ctx.tlc_mc('Listing_MC', 'Listing_MC.cfg', workers=4, timeout=6 * T)
+        ctx.tlc_mc('Listing_MC', 'Listing_MC3.cfg', workers=4, timeout=6 * T)
     b = vlib.build(DRIVER)
-    n = 150 if q else 1500
-    g1 = ctx.tlc_sim('Listing_Gen', 'Listing_Gen1.cfg', num=n, depth=40, timeout=3 * T)
-    g2 = ctx.tlc_sim('Listing_Gen', 'Listing_Gen2.cfg', num=n, depth=40, timeout=3 * T)
-    g3 = ctx.tlc_sim('Listing_Gen', 'Listing_Gen3.cfg', num=n, depth=40, timeout=3 * T)
+    n = 150 if q else 1200
+    g = {L: ctx.tlc_sim('Listing_Gen', 'Listing_Gen%d.cfg' % L, num=n, depth=45, timeout=3 * T) for L in (1, 2, 3)}
     for db in ('mem', 'leveldb', 'badger'):
-        ctx.replay(b, g1, opts=dict(spec='listing', bind='helper', db=db), par=4, count=(db == 'mem'), timeout=T)
-    ctx.replay(b, g1, opts=dict(spec='listing', bind='kvdblist', db='mem'), par=4, count=False, timeout=T)
-    for g in (g2, g3):
-        ctx.replay(b, g, opts=dict(spec='listing', bind='merged', db='mem'), par=4, timeout=T)
-        ctx.replay(b, g, opts=dict(spec='listing', bind='merged', db='mix'), par=4, count=False, timeout=T)
-        ctx.replay(b, g, opts=dict(spec='listing', bind='localdb', db='mem'), par=4, count=False, timeout=T)
+        ctx.replay(b, g[1], opts=dict(spec='listing', bind='helper', db=db), par=4, count=(db == 'mem'), timeout=T)
+    ctx.replay(b, g[1], opts=dict(spec='listing', bind='kvdblist', db='leveldb'), par=4, count=False, timeout=T)
+    for L in (2, 3):
+        ctx.replay(b, g[L], opts=dict(spec='listing', bind='merged', db='mem'), par=4, timeout=T)
+        ctx.replay(b, g[L], opts=dict(spec='listing', bind='merged', db='mix'), par=4, count=False, timeout=T)
+        ctx.replay(b, g[L], opts=dict(spec='listing', bind='localdb', db='mem'), par=4, count=False, timeout=T)
+        ctx.replay(b, g[L], opts=dict(spec='listing', bind='localdb', db='leveldb', salt=1), par=4, count=False, timeout=T)
+    if not q:
+        allb = ctx.tlc_genall('Listing_All', 'Listing_All.cfg', timeout=6 * T)
+        ctx.replay(b, allb, opts=dict(spec='listing', bind='merged', db='mem'), par=4, timeout=2 * T)
+        ctx.replay(b, allb, opts=dict(spec='listing', bind='localdb', db='mem', salt=2), par=4, count=False, timeout=2 * T)
+        ctx.replay(b, allb[::7], opts=dict(spec='listing', bind='merged', db='mix', salt=3), par=4, count=False, timeout=2 * T)
+        ctx.extra['exhaustive_small_config'] = dict(cfg='Listing_All.cfg', behaviours=len(allb))
+    for L, bind, db in ((1, 'helper', 'leveldb'), (3, 'merged', 'mix'), (3, 'localdb', 'mem')) + (() if q else ((1, 'helper', 'badger'),)):
+        ctx.validate_recording(b, 'Listing_Trace', 'Listing_Trace%d.cfg' % L, recorder='listing',
+                               opts=dict(db=db, bind=bind, layers=L, n=5 if q else 30, puts=30, lists=6),
+                               selftest=(bind == 'merged' and not q), timeout=3 * T)
+    _replay_selftest(ctx, b, g[3], dict(spec='listing', bind='merged', db='mem'))
+
+
+# ---------------------------------------------------------------------------------------------------- C08
+def _for_chain(bs):
+    """The blockchain handlers have no transaction-scoped PrefixCount: drop those calls, leave the count of the
+    projection open."""
+    out = []
+    for b in bs:
+        c = copy.deepcopy(b)
+        c['steps'] = [s for s in c['steps'] if s.get('op') != 'PrefixCount']
+        for s in c['steps']:
+            if isinstance(s.get('chk'), dict):
+                s['chk']['count'] = '*'
+        out.append(c)
+    return out
 
 
 def run_c08(ctx):
     q = ctx.tier == 'quick'
-    ctx.tlc_mc('LocalDB_MC', 'LocalDB_MCq.cfg' if q else 'LocalDB_MC.cfg', workers=4, timeout=3 * T)
+    ctx.rule = ('behaviours = (a) TLC simulation of LocalDB: depth-30 histories of Begin/Set/Get/List/PrefixCount/Commit/Rollback '
+                'over a pre-populated base (writes biased to keys a lower layer holds, a third of them empty values), (b) '
+                'exhaustive export of every history of 6 state-changing calls over 2 keys x 4 base contents; the projection '
+                '(Get of every key, complete listing in both directions, count) is compared after every state-changing call; '
+                'non-trivial = a key written inside an open transaction that the overlay or the base also holds, followed by '
+                'Commit or Rollback; distinct by abstract action sequence.')
+    ctx.assumptions += ['the base database does not change underneath the LocalDB', 'sequential use', 'TLC bounds: see level_note']
+    r = ctx.tlc_mc('LocalDB_MC', 'LocalDB_MCq.cfg' if q else 'LocalDB_MC.cfg', workers=4, timeout=3 * T, coverage=not q)
+    if not q:
+        _cov(ctx, r)
     b = vlib.build(DRIVER)
-    bs = ctx.tlc_sim('LocalDB_Gen', 'LocalDB_Gen.cfg', num=200 if q else 2000, depth=30, timeout=3 * T)
+    n = 200 if q else 2000
+    bs = ctx.tlc_sim('LocalDB_Gen', 'LocalDB_Gen.cfg', num=n, depth=30, timeout=3 * T)
     for db in ('mem', 'leveldb'):
         ctx.replay(b, bs, opts=dict(spec='localdb', db=db, proj=1), par=4, count=(db == 'mem'), timeout=T)
-    ctx.replay(b, bs, opts=dict(spec='localdb', db='mem', proj=0), par=4, count=False, timeout=T)
+    ctx.replay(b, bs, opts=dict(spec='localdb', db='mem', proj=0, salt=1), par=4, count=False, timeout=T)
+    if not q:
+        ctx.replay(b, bs, opts=dict(spec='localdb', db='badger', proj=1, salt=2), par=4, count=False, timeout=T)
+    allb = ctx.tlc_genall('LocalDB_All', 'LocalDB_Allq.cfg' if q else 'LocalDB_All.cfg', timeout=6 * T)
+    ctx.replay(b, allb, opts=dict(spec='localdb', db='mem', proj=1), par=4, timeout=2 * T)
+    ctx.extra['exhaustive_small_config'] = dict(cfg='LocalDB_Allq.cfg' if q else 'LocalDB_All.cfg', behaviours=len(allb))
+    # second binding: the blockchain module's EventLocal* handlers on a real node (one node per replay process)
+    cb = _for_chain(bs[:60] if q else bs[:600])
+    ctx.replay(b, cb, opts=dict(spec='localdb', bind='chain', proj=1), par=1, count=False, timeout=2 * T)
+    for db in ('mem', 'leveldb'):
+        ctx.validate_recording(b, 'LocalDB_Trace', 'LocalDB_Trace.cfg', recorder='localdb',
+                               opts=dict(db=db, n=5 if q else 30, depth=80), selftest=(db == 'leveldb' and not q), timeout=3 * T)
+    _replay_selftest(ctx, b, bs, dict(spec='localdb', db='mem', proj=1))
+
+
+# ---------------------------------------------------------------------------------------------------- shared
+def _replay_selftest(ctx, binary, bs, opts):
+    """Anti-vacuity of binding A (thorough tier): flip one predicted reply and require the replayer to disagree."""
+    if ctx.tier == 'quick':
+        return
+    for b in bs:
+        idx = [i for i, s in enumerate(b['steps']) if isinstance(s.get('ret'), (list, dict, int)) and s.get('ret') != []]
+        if not idx:
+            continue
+        c = copy.deepcopy(b)
+        c['id'] = 'selftest-' + c['id']
+        s = c['steps'][idx[-1]]
+        s['ret'] = vlib.corrupt(s['ret'])
+        keep = list(ctx.mismatches)
+        ev, tr, nt = ctx.evaluations, ctx.traces, ctx.nontrivial
+        res = ctx.replay(binary, [c], opts=dict(opts, selftest=1), par=1, count=False, timeout=T)
+        found = len(ctx.mismatches) > len(keep)
+        for m in ctx.mismatches[len(keep):]:
+            try:
+                import os
+                os.remove(m.get('replay') or m.get('Replay'))
+            except Exception:
+                pass
+        ctx.mismatches[:] = keep
+        ctx.evaluations, ctx.traces, ctx.nontrivial = ev, tr, nt
+        if not found:
+            raise vlib.Broken('binding self-test failed: a behaviour with a corrupted predicted reply was accepted by the replayer')
+        ctx.extra['selftest_corrupted_behaviour_rejected'] = True
+        return
+    ctx.notes.append('replay selftest: no corruptible step')
 
 
 def run(ctx):
